@@ -17,11 +17,12 @@ G = {n: i for i, n in enumerate(NAMES)}
 ADV = [500, 300] + [400 + 50 * i for i in range(2, 9)] + [0, 850]
 GA0, GA1 = 5, 6                         # glyph attributes usable in constraints: ga0 = gid, ga1 = gid % 3
 CMAP = {0x20: 1, 0x61: 2, 0x62: 3, 0x63: 4, 0x64: 5}     # 'e' (U+0065) is deliberately unmapped -> .notdef
-# classes: index -> ordered member list.  0..4 are used as OUTPUT classes (linear), 5.. as INPUT classes
-CLASSES = [[G['x']], [G['y']], [G['z']], [G['x'], G['y']], [G['m']],
-           [G['a']], [G['b']], [G['a'], G['b']], [G['b'], G['c']], [G['a'], G['b'], G['c'], G['d']], [G['x'], G['y'], G['z'], G['m'], G['a'], G['b'], G['c'], G['d']]]
-NLINEAR = 5
-OX, OY, OZ, OXY, OM, IA, IB, IAB, IBC, IABCD, IANY = range(11)
+# classes: index -> ordered member list.  0..6 are used as OUTPUT classes (linear), 7.. as INPUT classes
+CLASSES = [[G['x']], [G['y']], [G['z']], [G['x'], G['y']], [G['m']], [G['c']], [G['d']],
+           [G['a']], [G['b']], [G['a'], G['b']], [G['b'], G['c']], [G['a'], G['b'], G['c'], G['d']], [G['x'], G['y'], G['z'], G['m'], G['a'], G['b'], G['c'], G['d']],
+           [G['x']], [G['y']], [G['z']], [G['m']]]
+NLINEAR = 7
+OX, OY, OZ, OXY, OM, OC, OD, IA, IB, IAB, IBC, IABCD, IANY, IX, IY, IZ, IM = range(17)
 
 
 class LRule:
@@ -141,7 +142,7 @@ def compile_font(prog):
     passes = []
     npos = None
     for pi, P in enumerate(prog['passes']):
-        passes.append(dict(maxloop=20, flags=0x20 if P.get('reverse') else 0, rules=[compile_rule(r) for r in P['rules']]))
+        passes.append(dict(maxloop=P.get('maxloop', 20), flags=0x20 if P.get('reverse') else 0, rules=[compile_rule(r) for r in P['rules']]))
         if P.get('positioning') and npos is None: npos = pi
     if npos is None: npos = len(passes)
     silf = dict(version=3, passes=passes, classes=CLASSES, nlinear=NLINEAR, iSubst=0, iPos=npos, numUser=1, maxPre=2, maxPost=3, dir=prog['rtl'])
@@ -227,6 +228,16 @@ def programs(tier):
             for k, c in enumerate(seconds):
                 if not thorough and (j + k) % 2: continue
                 yield dict(kind='attr_then_pair', passes=[dict(rules=[a]), dict(rules=[b, c])], rtl=0, ids=(i, j, k))
+    # cursor backup: k single-slot rules that substitute and resume AT THEIR OWN SLOT (no progress), k <= MaxRuleLoop-1 so that the loop
+    # limit never intervenes, then a rule spanning 2-3 slots, then a rule that could match inside that rule's output
+    chain_in = [IA, IX, IY, IZ, IM]; chain_out = [OX, OY, OZ, OM]
+    for M in (2, 3, 4, 5):
+        for k in range(1, M):
+            chain = [LRule([], [(chain_in[q], [('glyph', chain_out[q])])], ret=-1) for q in range(k)]
+            end = chain_in[k]
+            for pi, P in enumerate((LRule([], [(end, [('glyph', OD)]), (IB, [('glyph', OC)])]), LRule([], [(end, [('glyph', OD)]), (IB, [('glyph', OC)])], ret=-1), LRule([], [(end, [('glyph', OD)]), (IB, [('glyph', OC)]), (IABCD, [])]))):
+                for ti, T in enumerate((LRule([], [(IBC, [('glyph', OZ)])]), LRule([], [(IABCD, [('glyph', OX)])]))):
+                    yield dict(kind='backup_chain', passes=[dict(rules=chain + [P, T], maxloop=M)], rtl=0, ids=(M, k, pi, ti))
     # directions: RTL font, reverse-direction pass
     for i, a in enumerate(core[::2] if thorough else core[::8]):
         for rtl in (0, 1):
@@ -278,7 +289,7 @@ def main():
         except AssertionError:
             continue
         tables[b'XPCT'] = expectation_table(prog, texts)
-        meta = json.dumps(dict(family='gdl_lite', kind=prog['kind'], rtl=prog['rtl'], passes=[dict(reverse=P.get('reverse', 0), positioning=bool(P.get('positioning')), rules=[describe_rule(r) for r in P['rules']]) for P in prog['passes']])).encode()
+        meta = json.dumps(dict(family='gdl_lite', kind=prog['kind'], rtl=prog['rtl'], passes=[dict(reverse=P.get('reverse', 0), maxloop=P.get('maxloop', 20), positioning=bool(P.get('positioning')), rules=[describe_rule(r) for r in P['rules']]) for P in prog['passes']])).encode()
         out.write(struct.pack('<Q', idx)); write_stream(out, tables, meta)
 
 
